@@ -1098,6 +1098,86 @@ func ruleCounterExtras(c *Ctx, m *counterModel, ctor *ssa.Function) {
 			}
 		}
 	}
+	// ---- the capacity is the size the caller asked for; the halving loop can also end on an empty buffer
+	{
+		sizeOK, got := false, ""
+		allInstrs(ctor, func(in ssa.Instruction) {
+			if st, ok := in.(*ssa.Store); ok {
+				if fa, ok := st.Addr.(*ssa.FieldAddr); ok {
+					if _, f := fieldVarOf(fa); sameField(f, m.capF) {
+						got = ksym(st.Val)
+						if _, isP := st.Val.(*ssa.Parameter); isP {
+							sizeOK = true
+						}
+					}
+				}
+			}
+		})
+		c.judge(sizeOK, "R-BUF-BOUND", "distinct.NewCounter:capacity is the requested size", ctor.Pos(), "cap = size", "the buffer limit stored by the constructor is "+got+", not the size it was given: halving starts one element early (or late), so counts below the requested size are no longer exact")
+	}
+	for fn := range m.methods {
+		if fn.Name() != "Add" {
+			continue
+		}
+		// loops whose continuation compares the buffer length with the capacity
+		for _, b := range fn.Blocks {
+			iff, ok := b.Instrs[len(b.Instrs)-1].(*ssa.If)
+			if !ok {
+				continue
+			}
+			bo, ok := iff.Cond.(*ssa.BinOp)
+			if !ok || !(m.isLenOfBuf(bo.X) || m.isLenOfBuf(bo.Y)) {
+				continue
+			}
+			_, fx := loadedField(bo.X)
+			_, fy := loadedField(bo.Y)
+			if !((fx != nil && sameField(fx, m.capF)) || (fy != nil && sameField(fy, m.capF))) {
+				continue
+			}
+			// is b a loop header (or does it dominate a back edge)?
+			isLoop := false
+			for _, p := range b.Preds {
+				if b.Dominates(p) {
+					isLoop = true
+				}
+			}
+			if !isLoop {
+				continue
+			}
+			// the continue edge must lead (before the body proper) to an emptiness test of the buffer
+			emptyExit := false
+			seen := map[*ssa.BasicBlock]bool{}
+			var walk func(x *ssa.BasicBlock, d int)
+			walk = func(x *ssa.BasicBlock, d int) {
+				if seen[x] || d > 3 {
+					return
+				}
+				seen[x] = true
+				for _, in := range x.Instrs {
+					if call, ok := in.(*ssa.Call); ok {
+						if cal := staticCallee(&call.Call); cal != nil && (cal.Name() == "IsEmpty") {
+							emptyExit = true
+						}
+					}
+					if bo2, ok := in.(*ssa.BinOp); ok && (m.isLenOfBuf(bo2.X) && isConstInt(bo2.Y, 0) || m.isLenOfBuf(bo2.Y) && isConstInt(bo2.X, 0)) {
+						emptyExit = true
+					}
+				}
+				if i2, ok := x.Instrs[len(x.Instrs)-1].(*ssa.If); ok && x != b {
+					_ = i2
+					return
+				}
+				for _, s2 := range x.Succs {
+					walk(s2, d+1)
+				}
+			}
+			for _, s2 := range b.Succs {
+				walk(s2, 0)
+			}
+			c.sawFn(fnName(fn))
+			c.judge(emptyExit, "R-BUF-BOUND", "distinct.(*Counter).Add:halving loop can end on an empty buffer", bo.Pos(), "the loop also stops when nothing is left to remove", "the halving loop repeats while Len ≥ cap with no exit for an empty buffer: with a limit of zero (or less) an emptied buffer still satisfies the condition and Add never returns")
+		}
+	}
 	// ---- R-SEED-FRESH
 	{
 		n := 0
